@@ -9,7 +9,9 @@ IMPORTS = ["Base.Prelude", "Model.Cursor", "Model.Obs"]
 TEXTS = [t for t in V.TEXTS if "\r" not in t]
 CRLF_TEXTS = [t for t in V.TEXTS if "\r" in t]
 EXTRA = ["/o<CR>", "?a<CR>", "n", "N", ":s/o/0/<CR>", ":%s/a/bb/g<CR>", ":d<CR>", ":2<CR>", ":1,2d<CR>", "u", "<c-r>", ".", "gv", "o<esc>",
-         "<c-v>jld", "Vjd", "vly", "R12<esc>", "A<BS><BS><esc>", "ia<left><left>b<esc>", "i<del><esc>", ":s/é/ab/<CR>", ":s/ab/é/<CR>", "jA foo<esc>u", "jofoo<esc>u", "ddu", "Gdd", "ggdG"]
+         "<c-v>jld", "Vjd", "vly", "R12<esc>", "A<BS><BS><esc>", "ia<left><left>b<esc>", "i<del><esc>", ":s/é/ab/<CR>", ":s/ab/é/<CR>", "jA foo<esc>u", "jofoo<esc>u", "ddu", "Gdd", "ggdG",
+         # block selections with a corner on the last character of the text, and visual selections that end on a line break
+         "G$<c-v>", "G$<c-v>k", "G0<c-v>$", "G<c-v>$h", "G$<c-v>kh", "j<c-v>ll", "$vj", "$vl", "$vjk", "G$v", "$<c-v>j"]
 OPENERS = ["i", "a", "A", "o", "R", "v", "V", "<c-v>"]
 
 
@@ -65,6 +67,11 @@ def check_state(st):
                 if nums[i] > n or nums[i + 1] > n:
                     out.append(f"block window {nums[i]}..{nums[i+1]} not inside the text")
                     break
+            else:
+                # the cursor is a corner of the block: the window of its line holds it (windows end behind their last character)
+                wins = [(nums[i], nums[i + 1]) for i in range(0, len(nums), 2)]
+                if wins and cur < n and cl[cur] != "\n" and not any(a <= cur < b for a, b in wins):
+                    out.append(f"cursor {cur} outside every window of the block selection {wins}")
     return out
 
 
@@ -83,7 +90,8 @@ def run(chk, binary):
         reqs.append({"op": "keys", "text": text, "cursor": start, "keys": keys, "keep_mode": rng.random() < 0.6})
         meta.append((text, keys, start))
     # a fixed corpus of histories that exposed (or are built to expose) stale caches and clamp slips
-    CORPUS = [("abc\nxy z", ["jA foo<esc>u"]), ("abc\nxyz\n", ["jofoo<esc>u"]), ("abc\nxy z", ["j", "A foo<esc>", "u", "x"]),
+    CORPUS = [("ñu\nabc", ["j<c-v>ll"]), ("ñu\nabc", ["j<c-v>ll", "h"]), ("abcd\nab\nxyz\n", ["$vj"]), ("abcd\nab\nxyz\n", ["$vj", "x"]),
+              ("abc\nxy z", ["jA foo<esc>u"]), ("abc\nxyz\n", ["jofoo<esc>u"]), ("abc\nxy z", ["j", "A foo<esc>", "u", "x"]),
               ("é c", [":s/é/ab/<CR>"]), ("é c", [":s/é/ab/<CR>", "l"]), ("ab c", [":s/ab/é/<CR>"]), ("ab c\nab", [":%s/ab/é/<CR>", "j"]),
               ("ab é ab\n", [":s/é/xy/<CR>", "$"]), ("a\nb", ["Gdd"]), ("a\nb\n", ["Gdd", "x"]), ("one two", ["$", "vld"]), ("x", ["v)"]),
               ("word", ["vis"]), ("a b\nc", ["jddu"]), ("ab\ncd", ["jA<BS><BS><BS><esc>"]), ("ab", ["A<esc>", "u"]), ("ab\n", ["ox<esc>u", "u"]),
